@@ -28,6 +28,7 @@ type epSpec struct {
 	refused   bool   // client kinds: nothing listens on the address
 	frames    int    // frames fed per transport
 	peerGoes  bool   // server kinds: first peer disconnects shortly before the close
+	readFault bool   // serial with a gated transport: the read side fails shortly before Close while the writer is blocked
 	lateOpen  bool   // serial: the device open that follows initialization completes only after Close has begun
 	openGate  chan struct{}
 	opens     int
@@ -56,7 +57,7 @@ func (w *c12World) describe() string {
 	var b strings.Builder
 	fmt.Fprintf(&b, "consumer=%s pauseAfter=%d closeAfter=%v closeOnParkedWriter=%v writers=%d heartbeat=%v shortReconnect=%v\n", w.consumer, w.pauseAfter, w.closeAfter, w.closeOnPark, w.writers, w.heartbeat, w.shortRetry)
 	for i, e := range w.eps {
-		fmt.Fprintf(&b, " endpoint %d: %s peers=%d gate=%v refused=%v frames=%d peerDisconnects=%v openCompletesDuringClose=%v\n", i, e.kind, e.peers, e.gate, e.refused, e.frames, e.peerGoes, e.lateOpen)
+		fmt.Fprintf(&b, " endpoint %d: %s peers=%d gate=%v refused=%v frames=%d peerDisconnects=%v openCompletesDuringClose=%v readFaultWithBlockedWriter=%v\n", i, e.kind, e.peers, e.gate, e.refused, e.frames, e.peerGoes, e.lateOpen, e.readFault)
 	}
 	return b.String()
 }
@@ -100,7 +101,7 @@ func init() {
 
 func TestC12Close(t *testing.T) {
 	rec := evid.New(t, "C12", "generated node configurations (custom, TCP/UDP server with peers, TCP/UDP client against a live or refusing address, serial through the hook) with traffic, gated (blocked) transports, a consumer that is absent, running or paused, concurrent Write* callers and a generated close point (immediately, after a delay, once a writer is parked in the transport); Close must return within a bound far above normal (on a miss two goroutine dumps prove the deadlock), afterwards no goroutine started by the library is alive, every listening port can be bound again, accepted connections are closed, each custom transport was closed exactly once, Events() is closed, and racing/following Write* calls return; non-trivial = close while a goroutine is known to be blocked (parked writer, paused/absent consumer with pending events, client in back-off); distinct by hash of the scenario")
-	rec.Require("blocked-writer", "no-consumer", "paused-consumer", "client-backoff", "open-completes-during-close", "racing-writers", "tcps", "udps", "tcpc", "udpc", "serial", "custom")
+	rec.Require("blocked-writer", "no-consumer", "paused-consumer", "client-backoff", "open-completes-during-close", "reader-failed-while-writer-blocked", "racing-writers", "tcps", "udps", "tcpc", "udpc", "serial", "custom")
 	evid.Check(t, rec, evid.N(250, 700), func(t *rapid.T) {
 		w := &c12World{}
 		ne := rapid.IntRange(1, 4).Draw(t, "neps")
@@ -112,6 +113,7 @@ func TestC12Close(t *testing.T) {
 			e.frames = rapid.IntRange(0, 20).Draw(t, "frames")
 			e.peerGoes = rapid.IntRange(0, 3).Draw(t, "peer_goes") == 0
 			e.lateOpen = e.kind == "serial" && rapid.IntRange(0, 2).Draw(t, "late_open") == 0
+			e.readFault = e.kind == "serial" && e.gate && !e.lateOpen && rapid.Bool().Draw(t, "read_fault")
 			w.eps = append(w.eps, e)
 		}
 		w.consumer = rapid.SampledFrom([]string{"none", "running", "running", "paused"}).Draw(t, "consumer")
@@ -373,6 +375,18 @@ func runC12(w *c12World) ([]string, error) {
 		}
 	}
 	for _, e := range w.eps {
+		if e.readFault && (w.writers > 0 || w.heartbeat) {
+			e.mu.Lock()
+			p := e.pipe
+			e.mu.Unlock()
+			if p != nil && p.WaitParkedWriter(500*time.Millisecond) {
+				p.FailReads(errors.New("injected serial read error"))
+				time.Sleep(2 * time.Millisecond)
+				blocked = append(blocked, "reader-failed-while-writer-blocked")
+			}
+		}
+	}
+	for _, e := range w.eps {
 		if e.lateOpen {
 			blocked = append(blocked, "open-completes-during-close")
 			gate := e.openGate
@@ -419,8 +433,13 @@ func runC12(w *c12World) ([]string, error) {
 	}
 	// events channel closed
 	if rec != nil {
-		rec.Resume()
-		if !rec.WaitClosed(bound) {
+		// the consumer may pause itself once more while it handles its last event: keep resuming
+		ended := false
+		for deadline := time.Now().Add(bound); !ended && time.Now().Before(deadline); {
+			rec.Resume()
+			ended = rec.WaitClosed(20 * time.Millisecond)
+		}
+		if !ended {
 			return blocked, fmt.Errorf("ranging over Events() did not end after Close")
 		}
 	} else {
